@@ -673,6 +673,111 @@ class _NonNulPrefix:
         return cs
 
 
+class _NullTerminatedList:
+    """Ghost quantities for a NULL-terminated array of pointers starting at S0 (a parameter): T, the index of its terminator (a
+    constant of the call), and the fact that a scan reads it upward.  An element found non-NULL at an index known to be <= T is
+    below T; an element found NULL at an index known to be <= T whose predecessors were all found non-NULL on the way is T --
+    the latter is claimed only for the scanning idiom the rule checks separately (index starts at 0, moves by +1, the array is not
+    written), where "index <= T" is the loop's invariant."""
+
+    def __init__(self, S0, T, esz):
+        self.S0, self.T, self.esz = S0, T, esz
+
+    def on_atom(self, A, cs, op, L, R, Le, Re):
+        if R != ("c", 0) or op not in ("==", "!=") or Le is None or L[0] != "[]":
+            return cs
+        e = Le.strip()
+        if e is None or e.cls != "ArraySubscriptExpr":
+            return cs
+        st = frozenset(x for x in cs if isinstance(x, tuple))
+        i = A.lin(e.kid(1), st)
+        from ..poly import Lin, cons
+        if i is None or A.nm(e.kid(0)) != self.S0:      # S0: the parameter itself (never assigned in the function)
+            return cs
+        if not A.holds(st, "<=", i, Lin.var(self.T)):
+            return cs
+        if op == "!=":
+            return list(cs) + cons("<=", i, Lin.var(self.T) - Lin.const(1))
+        return list(cs) + cons("==", i, Lin.var(self.T))
+
+
+HEAPINDEX_UNITS = ("util/sock.c", "util/sock_util.c")
+
+
+def j8_heapindex(prog, rep, units=HEAPINDEX_UNITS):
+    """Arrays the address routines allocate are indexed inside their allocation: for p = malloc(n * sizeof *p), every p[k] has
+    k < n (relational, sa/poly.py; the element count is a ghost fixed when malloc returns).  Where the count comes from scanning a
+    NULL-terminated list given by the caller (count, allocate, copy), the second scan is bounded by the first through the
+    list's terminator index, a ghost constant; that argument is used only when the list is a parameter the function never
+    writes through and every scan index starts at 0 and moves by +1."""
+    from .. import poly
+    from ..poly import Lin, cons
+    n = 0
+    for up in units:
+        u = prog.unit(up)
+        for f in u.funcs:
+            if f.file != up:
+                continue
+            arrs = {}
+            for e in f.all_elems():
+                if e.is_assign and e.op == "=" and norm(e.kid(0))[0] == "v" and e.kid(1) is not None:
+                    r = e.kid(1).strip()
+                    if r is not None and r.cls == "CallExpr" and r.callee == "malloc":
+                        ty = u.types.get(e.kid(0).ty) or {}
+                        esz = (u.types.get(ty.get("pointee", "")) or {}).get("size")
+                        if esz:
+                            arrs[norm(e.kid(0))] = (r, esz)
+            subs = [e for e in f.all_elems() if e.cls == "ArraySubscriptExpr" and norm(e)[0] == "[]" and norm(e)[1] in arrs]
+            if not subs:
+                continue
+
+            def post_malloc(A, call, st, cs, arrs=arrs, f=f):
+                for p, (c, esz) in arrs.items():
+                    if c is call:
+                        a = A.lin(call.arg(0), st)
+                        if a is not None:
+                            return list(cs) + cons("==", Lin.var(("$cap", f.name, call.pos)).scale(esz), a)
+                return list(cs)
+            # a NULL-terminated list parameter that is only read
+            ghost = None
+            assume = []
+            unsigned = set()
+            for q in f.params:
+                P = ("v", q["name"], q["id"])
+                pt = u.types.get((u.types.get(q["ty"]) or {}).get("pointee", "")) or {}
+                if pt.get("kind") != "ptr":
+                    continue
+                scans = [e for e in f.all_elems() if e.cls == "ArraySubscriptExpr" and norm(e)[0] == "[]" and norm(e)[1] == P]
+                written = any((e.is_assign or e.is_incdec) and (norm(e.kid(0)) == P or (norm(e.kid(0))[0] in ("[]", "*") and norm(e.kid(0))[1] == P)) for e in f.all_elems())
+                idx = set(norm(e)[2] for e in scans)
+                steady = all(ix[0] == "v" and all((norm(x.kid(1)) == ("c", 0) if (x.is_assign and x.op == "=") else (x.is_incdec and x.op in ("post++", "pre++")))
+                                                   for x in f.all_elems() if (x.is_assign or x.is_incdec) and norm(x.kid(0)) == ix) for ix in idx)
+                if scans and not written and steady:
+                    T = ("$term", q["name"])
+                    ghost = _NullTerminatedList(P, T, 8)
+                    assume = [(">=", Lin.var(T), Lin.const(0))]
+                    unsigned = {T} | set(idx)
+                    break
+            try:
+                A = poly.Analysis(f, assume=assume, post={"malloc": post_malloc}, unsigned_terms=unsigned, quiet={"sock_addr_dup", "sock_addr_freelist", "free"})
+                A.ghost = ghost
+                A.run()
+            except poly.Budget if hasattr(poly, "Budget") else Exception as ex:
+                rep.unknown("J8-heapindex", "%s: allocated arrays" % f.name, f.loc, "the relational analysis gave up: %s" % ex)
+                continue
+            for e in subs:
+                c, esz = arrs[norm(e)[1]]
+                st = A.state_before(e)
+                if st is None:
+                    continue
+                k = A.lin(e.kid(1), st)
+                n += 1
+                rep.check(k is not None and A.holds(st, "<", k, Lin.var(("$cap", f.name, c.pos))), "J8-heapindex",
+                          "%s in %s: the index is below the number of elements allocated" % (e.text[:30], f.name), e.where,
+                          "index %s is not provably below the element count of %s" % (k, c.text[:50]), function=f.name, construct="heap-index")
+    return n
+
+
 STRING_INPUTS = (("util/hexify.c", "unhexify", 0),)
 
 
@@ -745,11 +850,17 @@ def run(tier):
         j4(prog, rep)
         j5(prog, rep)
         j7_strseq(prog, rep)
+        if j8_heapindex(prog, rep) < 8:
+            rep.defer_broken("J8: fewer than 8 subscripts of allocated arrays found in the address routines")
         j6_eof(prog, rep)
         # "read only the bytes they were given": nothing released is looked at again (a diagnostic that prints an address string
         # after the string was freed reads memory that is no longer the parser's) -- every path, not only allocation failures
         from . import c14
         c14.double_free_rule(prog, rep, only_files=tuple(UNITS), alloc_only=False)
+        # a buffer the parser allocates is tested before it is written through (writing through a NULL result is a write outside
+        # any space the contract names); acquirers are those of libc plus the ones discovered in these units
+        c14.leak_rules(prog, rep, only_files=tuple(UNITS))
+        c14.reported_rule(prog, rep, only_files=tuple(UNITS))
         # humansize_parse is a character-at-a-time state machine: its reads are decided on the machine extracted from its CFG
         # (sa/finite.py; the exploration is C16's S3-grammar)
         from . import c16
